@@ -279,6 +279,55 @@ theorem c14_flex_prepend_alias (f : Flex) (a n1 : Nat) (h : f.Inv) (ha : a + n1 
     ∃ f', f.prependWin a n1 = some f' ∧ f'.Inv ∧ f'.values = (f.mem.drop a).take n1 ++ f.values :=
   prependWin_spec f a n1 h ha
 
+/-! ### wave 8 B / seed C14-K: the argument window's CAPACITY (three-index slices, clipped handles)
+
+`v = array[a : a+n1 : k]`: every window of the receiver's own backing array is a triple
+(offset, length, capacity) with `a + n1 ≤ k ≤ cap`; a handle cut earlier and kept across
+Pops/Shifts is such a triple of the CURRENT array for as long as the receiver keeps its array.
+`Flex.prependWinG ov` is `Prepend` with its alias test as a parameter (`ovCode` = the code's
+address-range test on the ELEMENTS, `ovCapEnd` = "both slices end at the same address when
+extended to their capacity", the `math/big` trick of seed C14-K). -/
+
+/-- **`Prepend(f.Values[a:a+n1:k]...)`, repaired code: correct for EVERY window (offset, length,
+capacity)** of the receiver's array, every state, reallocating or not — no panic,
+`Values = (the window as it was) ++ (old Values)`; the answer does not depend on `k` at all
+(it is `c14_flex_prepend_alias`'s), and outside `a + n1 ≤ k ≤ cap` the CALLER's slice expression panics. -/
+theorem c14_flex_prepend_window (f : Flex) (a n1 k : Nat) (h : f.Inv) :
+    (a + n1 ≤ k → k ≤ f.cap →
+      (∃ f', f.prependWin3 a n1 k = some f' ∧ f'.Inv ∧ f'.values = (f.mem.drop a).take n1 ++ f.values) ∧
+      f.prependWin3 a n1 k = f.prependWin a n1) ∧
+    ((a + n1 > k ∨ k > f.cap) → f.prependWin3 a n1 k = none) :=
+  ⟨fun hk hc => ⟨prependWinG_spec ovCode ovCode_adequate f a n1 k h hk hc, prependWin3_eq f a n1 k hk hc⟩,
+   prependWinG_bounds ovCode f a n1 k⟩
+
+/-- **Which alias tests keep `Prepend` a sequence operation.**  (1) EVERY adequate test (one that
+reports each non-empty window meeting the shifted cells `[0, n1+len)`, whatever the window's
+capacity) gives `window ++ old Values` for every (offset, length, capacity); the code's test is
+adequate.  (2) The same-end-address test is not adequate, yet (3) it is right for every window whose
+capacity reaches the end of the array (`f.Values[i:j]`) — two-index windows cannot tell the two
+tests apart — and (4) wrong on a clipped one: `[1 2 3 4 5 6]` with capacity 16,
+`Prepend(Values[3:5:5]...)` gives `[2 3 1 2 3 4 5 6]`, the code as written `[4 5 1 2 3 4 5 6]`. -/
+theorem c14_flex_prepend_alias_test :
+    (∀ ov : OvTest, ov.Adequate → ∀ (f : Flex) (a n1 k : Nat), f.Inv → a + n1 ≤ k → k ≤ f.cap →
+      ∃ f', f.prependWinG ov a n1 k = some f' ∧ f'.Inv ∧ f'.values = (f.mem.drop a).take n1 ++ f.values) ∧
+    ovCode.Adequate ∧ ¬ ovCapEnd.Adequate ∧
+    (∀ (f : Flex) (a n1 : Nat), f.Inv → a + n1 ≤ f.cap →
+      ∃ f', f.prependWinG ovCapEnd a n1 f.cap = some f' ∧ f'.Inv ∧ f'.values = (f.mem.drop a).take n1 ++ f.values) ∧
+    (Flex.prependWinG ovCapEnd ⟨[1, 2, 3, 4, 5, 6, 0, 0, 0, 0, 0, 0, 0, 0, 0, 0], 6⟩ 3 2 5).map Flex.values
+      = some [2, 3, 1, 2, 3, 4, 5, 6] ∧
+    (Flex.prependWin3 ⟨[1, 2, 3, 4, 5, 6, 0, 0, 0, 0, 0, 0, 0, 0, 0, 0], 6⟩ 3 2 5).map Flex.values
+      = some [4, 5, 1, 2, 3, 4, 5, 6] :=
+  ⟨fun ov hov f a n1 k h hk hc => prependWinG_spec ov hov f a n1 k h hk hc, ovCode_adequate,
+   ovCapEnd_not_adequate, prependWinG_capEnd_full, by decide, by decide⟩
+
+/-- **`Append(f.Values[a:a+n1:k]...)`** for every window (offset, length, capacity) of the receiver's
+array and every growth function: no panic, `Values = old Values ++ (the window as it was)` — also when
+the appended cells `[len, len+n1)` are cells of the window itself (`append` moves with `memmove`). -/
+theorem c14_flex_append_window (g : Nat → Nat → Nat) (f : Flex) (a n1 k : Nat) (h : f.Inv)
+    (hk : a + n1 ≤ k) (hc : k ≤ f.cap) :
+    ∃ f', f.appendWin3 g a n1 k = some f' ∧ f'.Inv ∧ f'.values = f.values ++ (f.mem.drop a).take n1 :=
+  appendWin3_spec g f a n1 k h hk hc
+
 /-! ### wave 8 B: the index arithmetic on the machine's `int`
 
 Every theorem above computes with unbounded `Int`.  The `G` models (`Model/C14Wrap.lean`) are the same
@@ -391,6 +440,12 @@ the spare capacity, on the repaired model -/
 example : (Flex.prependWin ⟨[1, 2, 3, 0, 0, 0, 0, 0], 3⟩ 1 2).map Flex.values = some [2, 3, 1, 2, 3] ∧
     (Flex.prependWin ⟨[1, 2, 3, 7, 8, 0, 0, 0], 3⟩ 2 3).map Flex.values = some [3, 7, 8, 1, 2, 3] := by decide
 /-- the layout of seeded change C14-E: `s2 = s1[1:2]` inside `s1 = [3 7 5 7]`: both 7s are kept -/
+example : (Flex.prependWin3 ⟨[1, 2, 3, 4, 5, 0, 0, 0], 5⟩ 2 2 4).map Flex.values = some [3, 4, 1, 2, 3, 4, 5] ∧
+    (Flex.prependWin3 ⟨[1, 2, 3, 9, 0, 0, 0, 0], 3⟩ 2 2 6).map Flex.values = some [3, 9, 1, 2, 3] ∧
+    (Flex.prependWin3 ⟨[1, 2, 3], 3⟩ 1 2 3).map Flex.values = some [2, 3, 1, 2, 3] ∧
+    Flex.prependWin3 ⟨[1, 2, 3], 3⟩ 1 2 4 = none ∧ Flex.prependWin3 ⟨[1, 2, 3], 3⟩ 1 2 2 = none := by decide
+example : (Flex.appendWin3 goGrow ⟨[1, 2, 3, 7, 8, 0, 0, 0], 3⟩ 2 3 5).map Flex.values = some [1, 2, 3, 3, 7, 8] := by decide
+example : Flex.Inv ⟨[1, 2, 3, 4, 5, 6, 0, 0, 0, 0, 0, 0, 0, 0, 0, 0], 6⟩ := by simp [Flex.Inv]
 example : intersectInPlaceA intEq [3, 7, 5, 7] ⟨0, 4, 4⟩ ⟨1, 1, 1⟩ = some ([7, 7, 5, 3], .win 0 2) := by decide
 example : diffInPlaceA intEq [9, 3, 7, 5, 7, 9] ⟨1, 4, 4⟩ ⟨2, 2, 2⟩ = some ([9, 3, 7, 5, 7, 9], .win 1 1) := by decide
 /-- a FlexSlice history crossing growth (cap 2 → 4 → 9 → 18), an in-capacity Prepend and a shrink (18 → 8) -/
